@@ -42,6 +42,7 @@ class C04Spec(c01.C01Spec):
         wh, wr = rng.choice([0.02, 0.05, 0.1]), rng.choice([0.0, 0.03, 0.08])
         if not cfg['sched'].get('guide'):
             cfg['sched']['w_hold'], cfg['sched']['w_rst'] = wh, wr
+            cfg['sched']['p_rst_after_follower_commit'] = rng.choice([0.0, 0.0, 0.02, 0.1])
         return cfg
 
     def nontrivial(self, res):
